@@ -227,12 +227,12 @@ pub async fn run_scenario(world: &mut World, req: &str, case: usize, out: &mut V
     out.push((format!("note {req}"), "-".to_string()));
     let v6 = rng.chance(1, 4);
     let mut sim = Sim { rng: rng.fork(), v6, peers: vec![], reals: vec![], flights: BinaryHeap::new(), seq: 0, lat_ms: (5, 300), end: 0, now_hint: 0, dup: 0, dup_rng: Rng::new(seed ^ 0xd0b1_e5), race: 0, races_left: 0, race_ih: None };
-    if kind != "e2e" && kind != "e2e24" && kind != "fresh" && sim.dup_rng.chance(1, 2) {
+    if kind != "e2e" && kind != "e2e24" && kind != "fresh" && kind != "slowsend" && sim.dup_rng.chance(1, 2) {
         sim.race = *sim.dup_rng.pick(&[2u64, 4, 8]);
         sim.races_left = 12;
         st.hit("scenario_with_racing_api_calls");
     }
-    if kind != "e2e" && kind != "e2e24" && sim.dup_rng.chance(1, 3) {
+    if kind != "e2e" && kind != "e2e24" && kind != "slowsend" && sim.dup_rng.chance(1, 3) {
         sim.dup = *sim.dup_rng.pick(&[2u64, 4, 10]);
         st.hit("scenario_with_duplicated_answers");
     }
